@@ -310,7 +310,7 @@ impl Sim {
                 em.insert(B(v));
             }
             K::C => {
-                em.insert(C(v, secret(v, if big { (v % 40) as usize } else { 0 })));
+                em.insert(C(v, secret(v, if big { 8 + ((v * 13) % 40) as usize } else { 0 })));
             }
             K::O => {
                 em.insert(O(v));
@@ -718,6 +718,11 @@ impl Sim {
                 if self.has_k(e, k) {
                     self.mutate_k(e, k);
                     self.op();
+                }
+            }
+            Step::MutateAll { k } => {
+                for slot in 0..nslots {
+                    self.step(&Step::Mutate { slot, k });
                 }
             }
             Step::Resize { slot, len } => {
